@@ -29,6 +29,23 @@ def generic_slot(L):
     return None
 
 
+RAW_NAMES = ["r#type", "r#fn", "r#match", "r#loop"]
+
+
+def with_names(L, guise=()):
+    """the descriptor with the field names the judge must see in Debug output (raw identifiers print without `r#`) and their source spelling"""
+    L = json.loads(json.dumps(L))
+    for v in L["variants"]:
+        for j, f in enumerate(v["fields"]):
+            f["src"] = RAW_NAMES[j] if "raw_fields" in guise else f.get("name", "f%d" % j)
+            f["name"] = f["src"].replace("r#", "")
+    return L
+
+
+def fsrc(L, vi, j):
+    return L["variants"][vi - 1]["fields"][j].get("src", "f%d" % j)
+
+
 GUISES = ["paren_ty", "alias_ty", "proj_ty", "empty_where", "raw_fields", "foreign_attrs", "macro_ty", "trailing_commas", "param_default", "vis"]
 
 
@@ -75,7 +92,7 @@ def item_src(L, entry, order=0, generic=False, guise=()):
             if "foreign_attrs" in guise and a:
                 parts = a.split(" #[")
                 a = "#[doc = \"f\"] " + " #[allow(unused)] #[".join(parts) + " #[cfg_attr(all(), allow(dead_code))]"
-            nm = ("r#f%d" % j) if "raw_fields" in guise else ("f%d" % j)
+            nm = f.get("src", "f%d" % j)
             fs.append("%s %s%s" % (a, ("%s%s: " % (vis, nm)) if v["shape"] == "named" else vis if L["kind"] == "struct" else "", "G" if slot == (vi, j) else wty))
         if L["kind"] == "enum":
             fs = [x.replace(vis, "") for x in fs]
@@ -110,7 +127,7 @@ def path(L, vi):
 def ctor(L, vi, args):
     v = L["variants"][vi - 1]
     if v["shape"] == "named":
-        return "%s { %s }" % (path(L, vi), ", ".join("f%d: %s" % (j, a) for j, a in enumerate(args)))
+        return "%s { %s }" % (path(L, vi), ", ".join("%s: %s" % (fsrc(L, vi, j), a) for j, a in enumerate(args)))
     if v["shape"] == "tuple":
         return "%s(%s)" % (path(L, vi), ", ".join(args))
     return path(L, vi)
@@ -119,7 +136,7 @@ def ctor(L, vi, args):
 def pat(L, vi, names):
     v = L["variants"][vi - 1]
     if v["shape"] == "named":
-        return "%s { %s }" % (path(L, vi), ", ".join("f%d: %s" % (j, n) for j, n in enumerate(names)))
+        return "%s { %s }" % (path(L, vi), ", ".join("%s: %s" % (fsrc(L, vi, j), n) for j, n in enumerate(names)))
     if v["shape"] == "tuple":
         return "%s(%s)" % (path(L, vi), ", ".join(names))
     return path(L, vi)
